@@ -64,6 +64,8 @@ HANG_S = 20
 
 def judge(res, bound_ms):
     """Positive evidence of a violation in one observation, or None."""
+    if res.get("k") == "crash" and "all goroutines are asleep" in (res.get("stderr") or ""):
+        return "the call can never return: the Go runtime found every goroutine blocked (deadlock) after the cancellation was due"
     if res.get("k") == "hang":
         return "the call did not return within %d s of its start (cancellation was due within milliseconds)" % HANG_S
     if res.get("k") != "ok":
@@ -113,7 +115,7 @@ def run(cx):
     nrun = 0
     for r_ in vlib.read_ndjson(sout):
         res = r_["res"]
-        if res.get("k") not in ("ok", "hang"):
+        if res.get("k") not in ("ok", "hang") and not judge(res, bound):
             cx.notes.append("scenario %s: driver result %s" % (r_["id"], str(res)[:150]))
             continue
         nrun += 1
